@@ -2,6 +2,8 @@ import TypifyModel.Model.StrConv
 import TypifyModel.Model.Render
 import TypifyModel.Model.Builder
 import TypifyModel.Model.Api
+import TypifyModel.Model.Conv
+import TypifyModel.Driver.SchemaJson
 import TypifyModel.Generated.Derives
 import TypifyModel.Driver.IrJson
 import TypifyModel.Driver.Regex
@@ -17,6 +19,9 @@ structure Case where
   space : Space
   badPattern : Bool      -- some pattern is outside the matcher's subset
   settings : Render.Settings := {}
+  doc : Doc := { defs := [] }
+  docUnsupported : List String := []
+  rid : List (String × Id) := []
 
 structure St where
   cases : List (String × Case) := []
@@ -47,7 +52,21 @@ def splitN (s : String) (n : Nat) : List String :=
     | n + 1, c :: r => go r (n + 1) (c :: cur) acc
   go s.toList n [] []
 
+def evalValid (c : Case) (defName payload : String) : String :=
+  if c.badPattern then "unsupported" else
+  match parseJson payload with
+  | none => "badjson"
+  | some j =>
+    match c.doc.get defName with
+    | none => "unsupported"
+    | some s =>
+      match Validate.valid ⟨ext.regex⟩ c.doc 200 s j with
+      | some true => "true"
+      | some false => "false"
+      | none => "fuel"
+
 def evalOp (c : Case) (op tyName payload : String) : String :=
+  if op == "valid" then evalValid c tyName payload else
   let σ := c.space
   match typeId σ tyName with
   | none => "unsupported"
@@ -86,6 +105,17 @@ def evalOp (c : Case) (op tyName payload : String) : String :=
             | .error e => "se-" ++ showE e
             | .ok w => "ok " ++ renderJson w)
        | _ => "badjson")
+    | "valid" =>
+      (match parseJson payload with
+       | none => "badjson"
+       | some j =>
+         match c.doc.get tyName with
+         | none => "unsupported"
+         | some s =>
+           match Validate.valid ⟨ext.regex⟩ c.doc 200 s j with
+           | some true => "true"
+           | some false => "false"
+           | none => "fuel")
     | "display" =>
       (match parseJson payload with
        | none => "badjson"
@@ -232,8 +262,29 @@ def step (st : St) (line : String) : St × String :=
      | some top =>
        let dump := (jget top "dump").getD top
        match parseSpace dump with
-       | some σ => ({ cases := (case, ⟨σ, !patternsOk σ, parseSettings top dump⟩) :: st.cases }, "ok")
+       | some σ =>
+         let (doc, unsup) := match jget top "doc" with
+           | some dj => parseDoc dj
+           | none => ({ defs := [] }, [])
+         let rid : List (String × Id) := match jget dump "ref_to_id" with
+           | some (.obj kvs) => kvs.filterMap fun (k, v) =>
+               match jnat? v with
+               | some id => if k = "#" then some ("#", id) else if k.startsWith "def:" then some ((k.drop 4).toString, id) else none
+               | none => none
+           | _ => []
+         ({ cases := (case, ⟨σ, !patternsOk σ, parseSettings top dump, doc, unsup, rid⟩) :: st.cases }, "ok")
        | none => (st, "bad-ir"))
+  | ["allconv", case] =>
+    (match st.cases.find? (fun c => c.1 == case) with
+     | some (_, c) =>
+       let ridf : String → Option Id := fun k => (c.rid.find? (fun e => e.1 == k)).map (·.2)
+       let per : List (String × Json) := c.doc.defs.map fun (k, s) =>
+         (k, match ridf k with
+           | some t => Json.obj [("conv", .bool (Conv.convB c.space ridf 64 s t)), ("rid", .int t)]
+           | none => Json.obj [("conv", .bool false), ("rid", .null)])
+       (st, renderJson (.obj [("defs", .obj (Json.sortObj per)),
+                              ("unsupported", .arr (c.docUnsupported.map .str))]))
+     | none => (st, "no-case"))
   | ["api", case] =>
     (match st.cases.find? (fun c => c.1 == case) with
      | some (_, c) => (st, renderJson (apiJson c))
